@@ -132,7 +132,7 @@ Definition redis_spec : list row := [
   (* one member: reply 1 iff newly added *)
   Cmd "ZAddFloatCtx" ["string"; "float64"; "string"] (mkcmd true NodeGetRedis (NoGuard) "ZAdd" [P 0; Rec "Z" [("Score", P 1); ("Member", P 2)]] (CEq1) NilReturned);
   (* Pair{Member, Score int64} -> Z{Score float64, Member} *)
-  Cmd "ZAddsCtx" ["string"; "...Pair"] (mkcmd true NodeGetRedis (NoGuard) "ZAdd" [P 0; Loc "zs..." ["var zs [ ] * red . Z"; "for _ , p := range p1 { z := & red . Z { Score : float64 ( p . Score ) , Member : p . Member } ; zs = append ( zs , z ) ; }"]] (CId) NilReturned);
+  Cmd "ZAddsCtx" ["string"; "...Pair"] (mkcmd true NodeGetRedis (NoGuard) "ZAdd" [P 0; Loc "zs..." ["var zs [ ] * red.Z"; "for _ , p := range p1 { z := & red.Z { Score : float64 ( p.Score ) , Member : p.Member } ; zs = append ( zs , z ) ; }"]] (CId) NilReturned);
   Cmd "ZCardCtx" ["string"] (mkcmd true NodeGetRedis (NoGuard) "ZCard" [P 0] (CInt) NilReturned);
   (* start -> min, stop -> max, both inclusive, decimal *)
   Cmd "ZCountCtx" ["string"; "int64"; "int64"] (mkcmd true NodeGetRedis (NoGuard) "ZCount" [P 0; Itoa (P 1); Itoa (P 2)] (CInt) NilReturned);
@@ -291,26 +291,26 @@ Definition kv_plain_ok (ctx_tbl : list kvrow) (r : kvrow) : bool :=
    absent, created from a FRESH red.Options / red.ClusterOptions literal whose Addr(s) is r.Addr: nothing of the
    options is shared between the clients of different addresses, so a client re-dials its own address. *)
 Definition client_rest : list string :=
-  ["var tlsConfig * tls . Config";
-   "if r . tls { tlsConfig = & tls . Config { InsecureSkipVerify : true , } ; }";
-   "client . AddHook ( durationHook )";
+  ["var tlsConfig * tls.Config";
+   "if r.tls { tlsConfig = & tls.Config { InsecureSkipVerify : true , } ; }";
+   "client.AddHook ( durationHook )";
    "return client , nil"].
 
 Definition client_spec : list clientrow := [
-  ClientNew "getClient" "clientManager" "r . Addr" "NewClient" "Options" true
-    [("Addr", "r . Addr"); ("Password", "r . Pass"); ("DB", "defaultDatabase"); ("MaxRetries", "maxRetries");
+  ClientNew "getClient" "clientManager" "r.Addr" "NewClient" "Options" true
+    [("Addr", "r.Addr"); ("Password", "r.Pass"); ("DB", "defaultDatabase"); ("MaxRetries", "maxRetries");
      ("MinIdleConns", "idleConns"); ("TLSConfig", "tlsConfig")] ["durationHook"] client_rest;
-  ClientNew "getCluster" "clusterManager" "r . Addr" "NewClusterClient" "ClusterOptions" true
-    [("Addrs", "[ ] string { r . Addr }"); ("Password", "r . Pass"); ("MaxRetries", "maxRetries");
+  ClientNew "getCluster" "clusterManager" "r.Addr" "NewClusterClient" "ClusterOptions" true
+    [("Addrs", "[ ] string { r.Addr }"); ("Password", "r.Pass"); ("MaxRetries", "maxRetries");
      ("MinIdleConns", "idleConns"); ("TLSConfig", "tlsConfig")] ["durationHook"] client_rest
 ].
 
 (* ---- script cache (scriptcache.go): GetSha reads the current map; SetSha copies it, sets the entry, publishes ---- *)
 Definition scriptcache_spec : list (string * list string) := [
-  ("GetScriptCache", ["once . Do ( func ( ) { scriptCache = & ScriptCache { } ; scriptCache . Store ( make ( Map ) ) ; } )";
+  ("GetScriptCache", ["once.Do ( func ( ) { scriptCache = & ScriptCache { } ; scriptCache.Store ( make ( Map ) ) ; } )";
                       "return scriptCache"]);
-  ("ScriptCache.GetSha", ["cache := c . Load ( ) . ( Map )"; "ret , ok := cache [ p0 ]"; "return ret , ok"]);
-  ("ScriptCache.SetSha", ["lock . Lock ( )"; "defer lock . Unlock ( )"; "cache := c . Load ( ) . ( Map )";
+  ("ScriptCache.GetSha", ["cache := c.Load ( ).( Map )"; "ret , ok := cache [ p0 ]"; "return ret , ok"]);
+  ("ScriptCache.SetSha", ["lock.Lock ( )"; "defer lock.Unlock ( )"; "cache := c.Load ( ).( Map )";
                           "newCache := make ( Map )"; "for k , v := range cache { newCache [ k ] = v ; }";
-                          "newCache [ p0 ] = p1"; "c . Store ( newCache )"])
+                          "newCache [ p0 ] = p1"; "c.Store ( newCache )"])
 ].
